@@ -21,10 +21,15 @@ Definition point := list Qc.
 Definition value := list Qc.
 Definition dict := list (point * value).
 
+(* equality of canonical rationals: numerators and denominators coincide (no cross multiplication: batches of a
+   few thousand points are run through the extracted model) *)
+Definition Qc_eqb_canon (a b : Qc) : bool :=
+  Z.eqb (Qnum (this a)) (Qnum (this b)) && Pos.eqb (Qden (this a)) (Qden (this b)).
+
 Fixpoint point_eqb (a b : point) : bool :=
   match a, b with
   | [], [] => true
-  | x :: a', y :: b' => Qc_eqb x y && point_eqb a' b'
+  | x :: a', y :: b' => Qc_eqb_canon x y && point_eqb a' b'
   | _, _ => false
   end.
 
